@@ -351,6 +351,8 @@ def run(rep, tier):
     # the "documented origin" of scale / skew / rotate_around_center is the centre of bounding_rect(): the bounding-box tables (shared with C19)
     from . import c19
     c19.bbox_tables(rep, F, rule="R13.8")
+    from . import gt_tables
+    gt_tables.run(rep, F, "R13.9", select={"Rect::center", "Rect::min", "Rect::max"})
 
 
 def origin_traits(rep, F):
